@@ -2,6 +2,8 @@
 
 package slip
 
+import "fmt"
+
 // VectorSymbol is the symbol with a value of "vector".
 const VectorSymbol = Symbol("vector")
 
@@ -14,6 +16,10 @@ type Vector struct {
 // NewVector creates a new Vector. If fillPtr is not used then it should be -1.
 func NewVector(dim int, elementType Symbol, initElement Object, elements List, adjustable bool) *Vector {
 	if elements == nil {
+		if dim < 0 || ArrayMaxDimension < dim {
+			TypePanic(NewScope(), 0, "dimension", Fixnum(dim),
+				fmt.Sprintf("non-negative fixnum not more than %d", ArrayMaxDimension))
+		}
 		elements = make(List, dim)
 		for i := dim - 1; 0 <= i; i-- {
 			elements[i] = initElement
